@@ -441,10 +441,17 @@ class Statement(TokenList):
             # SELECT, INSERT) on this level is the one of the statement.
             # The definitions need not be an Identifier or IdentifierList:
             # a CTE named like a keyword ("data", "result") stays ungrouped.
+            # Some words of the DML class are not reserved ("start",
+            # "replace", "merge"): behind WITH, RECURSIVE or a comma they
+            # name a CTE.
             tidx = self.token_index(token)
             while tidx is not None:
-                tidx, token = self.token_next(tidx, skip_ws=True)
-                if token is not None and token.ttype == T.Keyword.DML:
+                prev_ = token
+                tidx, token = self.token_next(tidx, skip_ws=True, skip_cm=True)
+                if (token is not None and token.ttype == T.Keyword.DML
+                        and not (prev_.ttype == T.Keyword.CTE
+                                 or prev_.match(T.Keyword, 'RECURSIVE')
+                                 or prev_.match(T.Punctuation, ','))):
                     return token.normalized
 
         # Hmm, probably invalid syntax, so return unknown.
